@@ -48,3 +48,11 @@ Proof.
   intros st a v s H. unfold arr_check, instancecheck. rewrite H. destruct (top_frame s). destruct (ps_stack s); reflexivity.
 Qed.
 Print Assumptions C12_transparent_refuted.
+
+(* the model resets the flatten mode and the '?'-leaf position on EVERY exit of the region that set them; that is what the
+   source does exactly when each set_...() is bracketed by try/finally clear_...() -- read from the AST (gen/Brackets.v) *)
+From JT Require Import gen.Brackets.
+Theorem C12_transient_state_is_bracketed_in_the_source :
+  flatten_flag_protected = true /\ treepath_protected = true /\ bracket_notes = [].
+Proof. repeat split; reflexivity. Qed.
+Print Assumptions C12_transient_state_is_bracketed_in_the_source.
